@@ -12,7 +12,7 @@ from vlib.core import Failure
 PROP = "C02"
 RULE = (
     "a case is a CONFIG (maxsize 1|2, block, 2-3 request threads with 1-2 requests each, optionally one thread calling "
-    "close(), an outcome script with at most one failing attempt: reset | 503 | connect refused | a reply that is not HTTP (the socket stays open until the pool closes it), retries on | off, pool_timeout none | set; or responses with chunked bodies whose second part arrives late, released after 5 bytes) plus "
+    "close(), an outcome script with at most one failing attempt: reset | 503 | connect refused | a reply that is not HTTP (the socket stays open until the pool closes it), retries on | off, pool_timeout none | set; or responses with chunked bodies whose second part arrives late, released after 5 bytes; or HEAD requests consumed with stream()) plus "
     "a SCHEDULE. Real threads run the real pool code on the in-memory network under vlib/sched.py, which owns every context "
     "switch: yield points are every line of _get_conn/_put_conn/_new_conn/close/_close_pool_connections/release_conn/"
     "HTTPResponse.close (thorough: also urlopen and _error_catcher, opcode granularity in _get_conn/_put_conn) and every "
@@ -94,6 +94,8 @@ def _validate(cfg):
         raise core.InvalidCase
     if not isinstance(cfg.get("partial", False), bool) or (cfg.get("partial") and cfg.get("fault") is not None):
         raise core.InvalidCase
+    if not isinstance(cfg.get("head_stream", False), bool) or (cfg.get("head_stream") and (cfg.get("fault") is not None or cfg.get("partial"))):
+        raise core.InvalidCase
     if cfg.get("fault") not in (None, "rreset", "503", "refused", "garbage") or cfg.get("fault_at", 0) not in (0, 1, 2) or cfg.get("retries", "retry") not in ("retry", "none"):
         raise core.InvalidCase
 
@@ -113,10 +115,11 @@ def run_once(cfg, decisions=None, random_seq=None, deep=False, opcode=False):
     elif cfg["fault"] == "garbage":
         # not an HTTP reply: unlike after a reset, http.client leaves the socket open and the pool has to close it
         script.append({"o": "garbage"})
+    head_stream = bool(cfg.get("head_stream"))  # every request but a thread's last one is a HEAD whose (chunked-announced) response is consumed with stream()
     partial = bool(cfg.get("partial"))
     # partial: chunked bodies whose second part is sent late; every request but a thread's last one reads 5 bytes and releases
     # (the late part looks like an HTTP response: a connection that is wrongly reused serves it to the next request)
-    srv = servers.ScriptServer(script, default=servers.ok(framing="chunked", late=9, body=TRAP_BODY, late_marker="HTTP/1.1 200 OK") if partial else servers.ok(body_len=30))
+    srv = servers.ScriptServer(script, default=servers.ok(framing="chunked", late=9, body=TRAP_BODY, late_marker="HTTP/1.1 200 OK") if partial else (servers.ok(body_len=30, framing="chunked") if head_stream else servers.ok(body_len=30)))
 
     class Pool(urllib3.HTTPConnectionPool):
         QueueCls = _Queue
@@ -164,7 +167,12 @@ def run_once(cfg, decisions=None, random_seq=None, deep=False, opcode=False):
                 for k in range(n):
                     target = "/t%dr%d" % (ti, k)
                     try:
-                        if partial and k < n - 1:
+                        if head_stream and k < n - 1:
+                            r = pool.urlopen("HEAD", target, pool_timeout=cfg["pool_timeout"], preload_content=False)
+                            got = b"".join(r.stream(16))  # reading to the end gives the connection back
+                            out.append(("ok", r.status, got, target))
+                            del r
+                        elif partial and k < n - 1:
                             r = pool.urlopen("GET", target, pool_timeout=cfg["pool_timeout"], preload_content=False)
                             got = r.read(5)
                             r.release_conn()
@@ -249,7 +257,9 @@ def check(cfg, s, obs) -> list[Failure]:
             if r[0] == "ok":
                 want = fakenet.tag_body(r[3].encode(), 30, 0)[:6]
                 tag = b"<" + r[3].encode()
-                if cfg.get("partial"):
+                if cfg.get("head_stream") and r[2] == b"" and r[1] == 200:
+                    pass  # the HEAD exchange: no body
+                elif cfg.get("partial"):
                     if r[1] != 200 or r[2] not in (TRAP_BODY.encode()[:5], TRAP_BODY.encode()):
                         fails.append(Failure("wrong-response", {**sig0, "partial": True}, f"request {r[3]} received {r[2][:40]!r} (not the body sent for it): {brief()}"))
                 elif r[1] == 200 and not r[2].startswith(tag):
@@ -293,6 +303,7 @@ def configs(tier):
     # responses released after 5 bytes while the rest of the (chunked) body is still on its way
     for maxsize, block, threads in itertools.product((1, 2), (True, False), ([2, 1], [2, 2])):
         out.append({"maxsize": maxsize, "block": block, "threads": threads, "closer": False, "fault": None, "fault_at": 0, "pool_timeout": None, "partial": True})
+        out.append({"maxsize": maxsize, "block": block, "threads": threads, "closer": False, "fault": None, "fault_at": 0, "pool_timeout": None, "head_stream": True})
     # the same with retries switched off: the scripted fault ends its request, the placeholder goes back while others wait
     for maxsize, block, threads, fault, pto in itertools.product((1, 2), (True, False), ([1, 1], [2, 1], [1, 1, 1]), ("rreset", "refused", "garbage"), (None, 0.05)):
         if (not block and pto is not None) or (maxsize == 2 and threads == [1, 1]):
@@ -307,7 +318,7 @@ def shards(tier, seed):
     for ci, cfg in enumerate(cfgs):
         small = cfg["maxsize"] == 1 and cfg["threads"] == [1, 1]
         if tier == "quick":
-            if ci % 5 == 0 or (small and cfg["fault"] in (None, "rreset", "garbage")) or cfg.get("partial") or (cfg.get("retries") == "none" and cfg["block"] and cfg["maxsize"] == 1):
+            if ci % 5 == 0 or (small and cfg["fault"] in (None, "rreset", "garbage")) or cfg.get("partial") or cfg.get("head_stream") or (cfg.get("retries") == "none" and cfg["block"] and cfg["maxsize"] == 1):
                 out.append({"part": "dfs", "config": ci, "bound": 2 if (small and cfg["fault"] is None and not cfg["closer"]) else 1, "deep": False, "max_runs": 1500})
             out.append({"part": "random", "config": ci, "n": _scale(25), "seed": core.derive_seed(seed, "r", ci), "deep": False})
         else:
